@@ -40,6 +40,10 @@ type c18Input struct {
 	Flip    int        `json:"flip,omitempty"` // verify: index of the cookie byte to change (-1 none)
 	Hellos  []c18Hello `json:"hellos,omitempty"`
 	Suite   uint16     `json:"suite,omitempty"`
+	// loop: SecretEmpty configures a non-nil empty CookieSecret (what []byte("") yields); RandSeed makes
+	// Config.Rand a known stream, so that the secret an unconfigured connection draws is known
+	SecretEmpty bool   `json:"secret_empty,omitempty"`
+	RandSeed    uint64 `json:"rand_seed,omitempty"`
 }
 
 func coqHello(h c18Hello, cookie []byte) string {
@@ -97,7 +101,15 @@ func c18Loop(out *emit.Out, scenario string, in c18Input) {
 	p := tk.GetPKI()
 	sigK := &tk.CountKey{Inner: p.SrvSig.Key}
 	encK := &tk.CountKey{Inner: p.SrvEnc.Key}
-	scfg := tk.BuildDTLCP(tk.EPConfig{Ident: "srv", CookieSecret: in.Secret, Suites: []uint16{in.Suite}, RetransMs: 20, MaxRetransMs: 40}, nil)
+	scfg := tk.BuildDTLCP(tk.EPConfig{Ident: "srv", CookieSecret: in.Secret, Suites: []uint16{in.Suite}, RetransMs: 20, MaxRetransMs: 40, RandSeed: in.RandSeed}, nil)
+	if in.SecretEmpty {
+		scfg.CookieSecret = []byte{}
+	}
+	var drawn []byte
+	if in.RandSeed != 0 {
+		drawn = make([]byte, 32)
+		tk.NewDetRand(in.RandSeed).Read(drawn)
+	}
 	scfg.Certificates[0].PrivateKey = sigK
 	scfg.Certificates[1].PrivateKey = encK
 	dp := tk.NewDPair(&dtlcp.Config{}, scfg)
@@ -138,6 +150,9 @@ func c18Loop(out *emit.Out, scenario string, in c18Input) {
 			case h.Cookie == "foreign":
 				_, params, _ := dtlcp.VerifClientHello(h.Vers, h.Random, h.SID, nil, h.Suites, h.Comp, 0)
 				cookie = dtlcp.VerifGenerateCookie(in.Secret, "10.9.9.9:4000", params)
+			case h.Cookie == "emptykey": // the cookie an attacker computes offline under the empty key
+				_, params, _ := dtlcp.VerifClientHello(h.Vers, h.Random, h.SID, nil, h.Suites, h.Comp, 0)
+				cookie = dtlcp.VerifGenerateCookie([]byte{}, dp.Net.Addr(0).String(), params)
 			case h.Cookie == "short":
 				if len(prevCookie) > 1 {
 					cookie = prevCookie[:len(prevCookie)-1]
@@ -201,7 +216,7 @@ func c18Loop(out *emit.Out, scenario string, in c18Input) {
 	}
 	out.Add(emit.Case{Scenario: scenario, Trivial: len(in.Hellos) < 2, Input: in, Direct: direct,
 		Observed: map[string]interface{}{"responses": resps},
-		Coq:      fmt.Sprintf("LoopCase %s %s [%s] [%s]", emit.Bytes(in.Secret), emit.Bytes([]byte(dp.Net.Addr(0).String())), strings.Join(hellosCoq, ";\n   "), strings.Join(rs, ";\n   "))})
+		Coq:      fmt.Sprintf("LoopCase %s %s %s [%s] [%s]", emit.Bytes(in.Secret), emit.Bytes(drawn), emit.Bytes([]byte(dp.Net.Addr(0).String())), strings.Join(hellosCoq, ";\n   "), strings.Join(rs, ";\n   "))})
 }
 
 func runC18(p params) error {
@@ -340,7 +355,29 @@ func runC18(p params) error {
 		if i%5 == 4 {
 			secret = nil
 		}
-		c18AddCase(out, "loop", c18Input{Kind: "loop", Secret: secret, Hellos: hs, Suite: []uint16{0xe053, 0xe013}[r.IntN(2)], Addr: []string{"", "1.1.1.1:5", "10.1.2.3:40000"}[r.IntN(3)]})
+		in := c18Input{Kind: "loop", Secret: secret, Hellos: hs, Suite: []uint16{0xe053, 0xe013}[r.IntN(2)], Addr: []string{"", "1.1.1.1:5", "10.1.2.3:40000"}[r.IntN(3)]}
+		sc := "loop"
+		if secret == nil {
+			// no secret configured (nil or empty): the connection draws its own from Config.Rand; cookies
+			// computed under the empty key or issued by another connection are worth nothing
+			sc = "loop-unconfigured-secret"
+			in.SecretEmpty = i%2 == 0
+			if i%10 != 9 {
+				in.RandSeed = 1 + r.Uint64N(1<<40)
+			}
+			for j := 1; j < len(in.Hellos); j += 2 {
+				in.Hellos[j].Cookie = "emptykey"
+			}
+		}
+		c18AddCase(out, sc, in)
+	}
+	// directed: unconfigured secret in both spellings, the forged empty-key cookie first
+	for k := 0; k < 2; k++ {
+		h := mkHello()
+		h.Vers, h.Suites, h.Comp = 0x0101, []uint16{0xe053, 0xe013}, []byte{0}
+		h1, h2, h3 := h, h, h
+		h1.Cookie, h2.Cookie, h3.Cookie = "emptykey", "none", "valid"
+		c18AddCase(out, "loop-unconfigured-secret", c18Input{Kind: "loop", SecretEmpty: k == 1, RandSeed: 77 + uint64(k), Hellos: []c18Hello{h1, h2, h3}, Suite: 0xe013, Addr: "10.1.2.3:40000"})
 	}
 	return out.Finish()
 }
